@@ -57,7 +57,7 @@ def main():
     with open(pfile, "w") as f:
         for m in meshes:
             f.write(json.dumps(m) + "\n")
-    pr = subprocess.run(["timeout", "1800", binpath, pfile, ofile], capture_output=True, text=True)
+    pr = subprocess.run(["timeout", "300", binpath, pfile, ofile], capture_output=True, text=True)      # (a broken adjacency can make findVertexEdges walk forever)
     outs = vlib.read_ndjson(ofile)
     if pr.returncode != 0 or len(outs) != len(meshes):
         rep.violation("crash", {"stderr": pr.stderr[-300:], "mesh": meshes[len(outs)] if len(outs) < len(meshes) else None}, "harness died (exit %s) after %d results: %s" % (pr.returncode, len(outs), pr.stderr[-300:]))
@@ -101,6 +101,10 @@ def main():
                 want = {frozenset((faces[fi][k], faces[fi][(k + 1) % 3])) for k in range(3)}
                 if any(not 0 <= x < len(pairs) for x in fc["e"]) or {pairs[x] for x in fc["e"]} != want:
                     bad(tag + "face-edges", "face %d %s reports edges %s" % (fi, faces[fi], fc["e"])); ok = False; break
+                # documented slots: edge 0 connects the face's vertices 0 and 1, edge 1 connects 1 and 2, edge 2 connects 2 and 0
+                slot = [k for k in range(3) if pairs[fc["e"][k]] != frozenset((fc["v"][k], fc["v"][(k + 1) % 3]))]
+                if slot:
+                    bad(tag + "face-edge-slots", "face %d with vertices %s: edge slot %d holds the edge %s" % (fi, fc["v"], slot[0], sorted(pairs[fc["e"][slot[0]]]))); ok = False; break
             if not ok:
                 continue
             for v in range(nv):
